@@ -217,6 +217,9 @@ class XPath2Parser(XPath1Parser):
         except (AttributeError, NotImplementedError):
             return self._xsd_version
 
+    before_comment: XPathToken | None = None
+    """The token that precedes the comment that is being consumed."""
+
     def advance(self, *symbols: str,  message: str | None = None) -> XPathToken:
         super(XPath2Parser, self).advance(*symbols, message=message)
 
@@ -235,7 +238,15 @@ class XPath2Parser(XPath1Parser):
                     comment_level -= 1
                 else:
                     comment_level += 1
-            self.advance(':)')
+
+            # The token that follows the comment is built as if the comment was
+            # not there (the role of a '?' depends on the token that precedes it).
+            outer = self.before_comment  # not None for consecutive comments
+            self.before_comment = token if outer is None else outer
+            try:
+                self.advance(':)')
+            finally:
+                self.before_comment = outer
 
             self.next_token.unexpected(':')
             self.token = token
